@@ -4,7 +4,7 @@ from .. import simprop
 ID = "C07"
 FAMILY = "C07"
 VARIANTS = ("asan",)
-BUDGET = {"quick": dict(examples=16000, seconds=60), "thorough": dict(examples=400000, seconds=540)}
+BUDGET = {"quick": dict(examples=80000, seconds=55), "thorough": dict(examples=2000000, seconds=540)}
 NONTRIVIAL = {'pool-preempt-victim', 'pool-acquire-cut-short', 'pool-top-up'}
 PROFILES = [(4, 'pool'), (1, 'mixed')]
 RULE = ('Hypothesis-generated scenarios (profile pool 80%, mixed 20%): capacities 1-8, amounts 1..capacity, top-ups of existing holdings, partial fulfilment and waiting, interrupts / timeouts / preemptions (same pool, another pool, a plain resource) / stops at every point of a multi-step acquisition, changing priorities. Oracle: per-process holdings built from return values; after every event held_by_process equals the model (within [before, before+n] while an acquisition is in flight), in_use == sum of holdings <= capacity, available == capacity - in_use; SUCCESS adds exactly n, an interrupted call leaves exactly the previous holding (0 if robbed by a preemption on that pool), every process robbed had strictly lower priority than a preempting caller and gets PREEMPTED in that instant. Non-trivial = an acquisition cut short, or a preemption victim, or a top-up. distinct = SHA-1 of the scenario text.')
